@@ -14,7 +14,7 @@ RULE = ('A recorder replaces the random source seen by the id generator (secrets
         '(counter start anywhere in 0..2^24-1 including just before the wrap, source bytes, two '
         'offsets a<b<2^24): format [A-Za-z0-9_-]{20}; id(c+a,r) != id(c+b,r) (pair law); per issue '
         '>= 12 bytes requested from the CSPRNG and >= 96 single-bit flips of the returned bytes '
-        'each change the id; windows of 2^12 (quick) consecutive issues across the wrap are '
+        'each change the id; windows of 2^12 (quick) consecutive issues across the wrap - and shorter ones with a shutdown() call between two issues - are '
         'pairwise distinct; thorough: the full period of 2^24 consecutive issues under a constant '
         'source, from two starts, is pairwise distinct (exhaustive, each shard holds one hash '
         'bucket of all ids); histories of 2..9 open requests (polling / WebSocket, accepted / '
@@ -291,18 +291,31 @@ def check_step(which, c, r, ctx=None):
         ctx.case(rep, True, ['step', 'step-at-wrap' if c == PERIOD - 1 else 'step-inside'])
 
 
-def check_window(which, start, n, r, ctx=None, bucket=None, nbuckets=1):
-    """n consecutive issues from counter `start` under constant source r: pairwise distinct."""
+def check_window(which, start, n, r, ctx=None, bucket=None, nbuckets=1, shutdown_at=None):
+    """n consecutive issues from counter `start` under constant source r: pairwise distinct -
+    also when the application calls shutdown() (which stops background tasks, nothing else) in
+    between: the server keeps issuing ids afterwards."""
     stt = setup()
     server, src = stt['servers'][which], stt['src']
     src.mode = ('const', r)
     src.flip = None
     server.sequence_number = start & 0xffffff
     rep = {'server': which, 'window_start': start, 'n': n, 'source': r.hex()}
+    if shutdown_at is not None:
+        rep['shutdown_at'] = shutdown_at
     seen = set()
     gen = server.generate_id
     crc = zlib.crc32
     for i in range(n):
+        if i == shutdown_at:
+            import asyncio
+            res = server.shutdown()
+            if asyncio.iscoroutine(res):
+                lp = asyncio.new_event_loop()
+                try:
+                    lp.run_until_complete(res)
+                finally:
+                    lp.close()
         x = gen()
         if nbuckets > 1 and crc(x.encode()) % nbuckets != bucket:
             continue
@@ -315,7 +328,8 @@ def check_window(which, start, n, r, ctx=None, bucket=None, nbuckets=1):
         if not FMT.match(x):
             raise V('bad-format', 'window', 'issued id %r' % x, rep)
     if ctx:
-        ctx.case(rep, True, ['window-2^%d' % (n.bit_length() - 1),
+        ctx.case(rep, True, ['window-2^%d' % (n.bit_length() - 1)] + (
+            ['shutdown()-between-issues'] if shutdown_at is not None else []) + [
                              'window-across-wrap' if (start % PERIOD) + n > PERIOD else 'window'])
     return len(seen)
 
@@ -343,6 +357,8 @@ def run_shard(ctx):
         if k % ctx.nshards == ctx.shard % len(wins) and ctx.shard < len(wins):
             try:
                 check_window(which, start, n, bytes([ctx.shard]) * 16, ctx)
+                check_window(which, start, 512, bytes([ctx.shard]) * 16, ctx,
+                             shutdown_at=[3, 100, 511, 256, 1][k])
             except Violation as v:
                 if not ctx.is_known(v):
                     ctx.add_violation(v)
@@ -370,7 +386,8 @@ def replay(case, ctx):
     if 'step_from' in case:
         return check_step(case['server'], case['step_from'], bytes.fromhex(case['source']))
     if 'window_start' in case:
-        check_window(case['server'], case['window_start'], case['n'], bytes.fromhex(case['source']))
+        check_window(case['server'], case['window_start'], case['n'], bytes.fromhex(case['source']),
+                     shutdown_at=case.get('shutdown_at'))
     else:
         check_pair((case['server'], case['start'], bytes.fromhex(case['source']), case['a'],
                     case['b'] - case['a']))
